@@ -200,6 +200,39 @@ def run(ctx):
             if not (np.array_equal(snap[0], Ad) and np.array_equal(snap[1], b) and (x0 is None or np.array_equal(snap[2], x0))
                     and (Md is None or np.array_equal(snap[3], Md))):
                 ctx.fail(name + '/inputs-modified', 'A, b, x0 or M changed', base)
+            # the test applied to the INITIAL guess is the solver's own criterion (with its preconditioner): a guess that
+            # meets it comes back unchanged with status 0, one that misses it is iterated on
+            if np.linalg.cond(Ad) < 1e6:
+                xsol = np.linalg.solve(Ad, b)
+                for crit_ in crits:
+                    # every criterion of the solver; the preconditioned ones with a preconditioner whose scale is far
+                    # from one (the criteria are invariant under scaling M, a mixed-up norm is not)
+                    Mg = Md
+                    if crit_ in ('MrMr', 'rMr'):
+                        Mg = (Md if Md is not None else np.diag(1.0 / np.abs(np.diag(Ad)))) * rng.choice([100.0, 0.01])
+                        if name == 'cgnr':
+                            Mg = np.diag(1.0 / np.sum(np.abs(Ad) ** 2, axis=0)) * rng.choice([100.0, 0.01])
+                        if name == 'cgne':
+                            Mg = np.diag(1.0 / np.sum(np.abs(Ad) ** 2, axis=1)) * rng.choice([100.0, 0.01])
+                    for dist in (0.0, 1e-9, 1e-6, 1e-3):
+                        xg = (xsol + dist * np.array([rng.uniform(-1, 1) for _ in range(n)])).astype(b.dtype)
+                        tol0 = 1e-6
+                        try:
+                            _, cv0 = crit_values(name, crit_, Ad, Mg, b, xg)
+                            thr0 = threshold(name, crit_, Ad, Mg, b, xg, tol0)
+                            xr, st0, res0, cbs0 = call(fn, Aarg, b, xg.copy(), tol0, 3, crit_, Mg)
+                        except Exception as e:   # noqa
+                            ctx.fail(name + '/raises', repr(e), dict(base, variant='near-solution-guess', criteria=crit_))
+                            continue
+                        cs0 = dict(base, variant='near-solution-guess', criteria=crit_, distance=dist, tol=tol0,
+                                   M_diag=None if Mg is None else np.diag(Mg).tolist())
+                        ctx.count('near-solution-guess:' + str(crit_))
+                        if cv0 < thr0 * (1 - 1e-3) and (st0 != 0 or len(cbs0) != 0 or not np.array_equal(np.ravel(xr), np.ravel(xg))):
+                            ctx.fail(name + '/converged-guess', 'criterion %s: guess meets it (%.3g < %.3g) but status=%r, %d iterations, |x-x0|=%.3g'
+                                     % (crit_, cv0, thr0, st0, len(cbs0), np.linalg.norm(np.ravel(xr) - np.ravel(xg))), cs0)
+                        if cv0 > thr0 * (1 + 1e-3) and len(cbs0) == 0 and st0 >= 0:
+                            ctx.fail(name + '/unconverged-guess-accepted', 'criterion %s: guess misses it (%.3g >= %.3g) but no iteration was run (status %r)'
+                                     % (crit_, cv0, thr0, st0), cs0)
             its = [np.zeros_like(b) if x0 is None else x0] + xs
             if len(full) != len(its) or not all(np.all(np.isfinite(v)) for v in its):
                 oracle(ctx, name, crit, Ad, Md, b, x0, 1e-300, K, x, st, full, xs, dict(base, tol=1e-300, maxiter=K))
@@ -397,9 +430,13 @@ def all_solvers(ctx):
                     kw = rng.choice([{}, {'restart': 2, }, {'restart': 3}])
                     if name == 'gmres':
                         kw = dict(kw, orthog=rng.choice(['mgs', 'householder']))
-                for variant in ('random-x0', 'exact-x0', 'zero-rhs', 'unit-rhs'):
+                for variant in ('random-x0', 'exact-x0', 'zero-rhs', 'unit-rhs', 'zero-rhs-nonzero-x0'):
                     bb = b
-                    if variant == 'exact-x0':
+                    if variant == 'zero-rhs-nonzero-x0':
+                        # b = 0 but the guess is not the solution: the solver has to iterate (thresholds with ||b|| := 1)
+                        bb = np.zeros_like(b)
+                        x0 = np.array([rng.uniform(-1, 1) for _ in range(n)]).astype(b.dtype)
+                    elif variant == 'exact-x0':
                         x0 = np.linalg.solve(Ad, b)
                     elif variant == 'zero-rhs':
                         bb = np.zeros_like(b)
